@@ -1,5 +1,7 @@
 package ergo
 
+import "strings"
+
 // C07: the dependency graph stays acyclic, same-kind and between live items.
 
 func zzEdge(g *Graph, from, to string) bool {
@@ -16,6 +18,7 @@ func zzAssumeI1(g *Graph) {
 		zzAssume(!tomb)
 		_, hasMeta := g.Meta[k]
 		zzAssume(hasMeta)
+		zzAssume(strings.TrimSpace(t.Title) != "") // I8: replay's legacy-title migration has run
 	}
 	for k := range g.Meta {
 		_, ok := g.Tasks[k]
